@@ -703,7 +703,8 @@ func (mpt *MerklePatriciaTrie) deleteAtNode(key Key, node Node, prefix, path Pat
 			nnode := cnode.Clone().(*LeafNode)
 			nnode.SetOrigin(mpt.Version)
 			nnode.Prefix = concat(prefix)
-			nnode.Path = append(nodeImpl.Path, cnodeImpl.Path...)
+			// concat: append could write into the path buffer of the stored extension node
+			nnode.Path = concat(nodeImpl.Path, cnodeImpl.Path...)
 			nnode.SetValue(cnodeImpl.GetValue())
 			if err := mpt.deleteNode(cnode); err != nil {
 				return nil, nil, err
@@ -716,7 +717,8 @@ func (mpt *MerklePatriciaTrie) deleteAtNode(key Key, node Node, prefix, path Pat
 		case *ExtensionNode:
 			// if extension child changes from full node to extension node, merge the extensions
 			nnode := nodeImpl.Clone().(*ExtensionNode)
-			nnode.Path = append(nnode.Path, cnodeImpl.Path...)
+			// concat: the clone may share its path buffer with the stored extension node
+			nnode.Path = concat(nnode.Path, cnodeImpl.Path...)
 			nnode.NodeKey = cnodeImpl.NodeKey
 			if err := mpt.deleteNode(cnode); err != nil {
 				return nil, nil, err
